@@ -29,7 +29,7 @@ BUDGET = {
     "quick": {"cases": 8400, "seconds": 90, "shards": 8},
     "thorough": {"cases": 300000, "seconds": 900, "shards": 16},
 }
-REQUIRED_OBS = ["int64_beyond_2^53_cases", "deep_path_case", "layout:fortran", "layout:column-slice", "learn_with_precomputed_matrix", "big_validation_case", "predict_after_learn_checked", "relevance_checked", "learn_conservation_checked", "learn_best_model_checked", "learn_swaps_executed", "learn_best_not_last",
+REQUIRED_OBS = ["int64_beyond_2^53_cases", "extreme_rng_outcomes", "deep_path_case", "layout:fortran", "layout:column-slice", "learn_with_precomputed_matrix", "big_validation_case", "predict_after_learn_checked", "relevance_checked", "learn_conservation_checked", "learn_best_model_checked", "learn_swaps_executed", "learn_best_not_last",
                 "prune_refit_checked", "prune_discarded", "first_in_order_conqueror"]
 MIN_NONTRIVIAL = 100
 NIL = -1
@@ -64,6 +64,8 @@ def generate(rng, tier, idx):
     case = {"part": part, "metric": name, "X": X.tolist(), "Y": [int(v) for v in Y], "V": V.tolist(), "YV": [int(v) for v in YV],
             "iters": int(rng.integers(0 if part == "prune" else 1, 11)), "rng_seed": int(rng.integers(0, 2 ** 31 - 1)),
             "layout": str(rng.choice(["c", "c", "fortran", "column-slice", "row-stride"])), "pre": None}
+    if part == "learn" and rng.random() < 0.08:
+        case["rng_extreme"] = str(rng.choice(["high", "low", "alternate"]))
     if part == "learn" and rng.random() < 0.06:
         Z = np.round(A * 3).astype(np.int64) + 2 ** 60 + rng.integers(0, 7, size=A.shape)
         case.update({"X": Z[:n].tolist(), "V": Z[n:].tolist(), "int64": True, "metric": gen.pick(rng, ["euclidean", "manhattan", "squared_euclidean", "chebyshev"])})
@@ -225,8 +227,21 @@ def _learn(case, res):
         rec.add("iter", {"acc": float(result), "snap": forest_snapshot(m), "feat": _features_fp(m)})
 
     np.random.seed(case["rng_seed"])
-    with hooks.patched(rec, [(g, "opf_accuracy", None, after_acc)]):
-        call = safe_call(m.learn, X, Y, V, YV, case["iters"])
+    real_uniform = np.random.uniform
+    if case.get("rng_extreme"):
+        # admissible but extreme outcomes of the global uniform generator: the largest double below `high` / exactly `low`
+        def extreme_uniform(low=0.0, high=1.0, size=None, _n=[0]):
+            _n[0] += 1
+            top = np.nextafter(float(high), float(low))
+            v = top if case["rng_extreme"] == "high" or (case["rng_extreme"] == "alternate" and _n[0] % 2) else float(low)
+            return v if size is None else np.full(size, v)
+        np.random.uniform = extreme_uniform
+        res.see("extreme_rng_outcomes")
+    try:
+        with hooks.patched(rec, [(g, "opf_accuracy", None, after_acc)]):
+            call = safe_call(m.learn, X, Y, V, YV, case["iters"])
+    finally:
+        np.random.uniform = real_uniform
     iters = rec.of("iter")
     # (a) conservation — also when learn raised
     res.see("learn_conservation_checked")
